@@ -147,7 +147,7 @@ def build(variant, quiet=True):
     if variant in ("native", "noasm", "noti", "generic"):
         so = os.path.join(d, "libsodium.so")
         subprocess.check_call([cc, "-shared", "-o", so, "-Wl,--whole-archive", lib,
-                               "-Wl,--no-whole-archive", "-lpthread"])
+                               "-Wl,--no-whole-archive", "-Wl,-z,noexecstack", "-lpthread"])
     with open(os.path.join(d, "ok"), "w") as f:
         f.write("%.1f s\n" % (time.time() - t0))
     if not quiet:
@@ -164,7 +164,7 @@ def link_harness(variant, out, sources_c, extra_flags=(), wraps=(), extra_libs=(
     cmd = [cc, "-pthread", "-g"] + list(opt) + san + include_flags() + ["-I" + os.path.join(VERIF, "harness"),
            "-I" + os.path.join(VERIF, "ref")] + list(extra_flags) + list(sources_c) + \
           [os.path.join(d, "libsodium.a")] + ["-Wl,--wrap=" + w for w in wraps] + list(extra_libs) + \
-          ["-lpthread", "-lm", "-o", out]
+          ["-Wl,-z,noexecstack", "-lpthread", "-lm", "-o", out]
     r = subprocess.run(cmd, capture_output=True, text=True)
     if r.returncode != 0:
         sys.stderr.write("HARNESS BUILD FAILURE: %s\n%s\n" % (" ".join(cmd), r.stderr[:6000]))
